@@ -271,6 +271,25 @@ void judge_int_range(std::string const &e, fcppt::int_range<typename W::type> co
   judge_arith_sequence(key, walk::preinc, r, first, count, prefix, conv);
   if (full)
   {
+    // the iterators of the range: equal exactly when advanced equally far, whichever operand stands left (end != it)
+    {
+      std::vector<decltype(r.begin())> its;
+      for (auto it = r.begin(); !(it == r.end()) && its.size() <= static_cast<std::size_t>(count); ++it)
+        its.push_back(it);
+      its.push_back(r.end());
+      bool reported = false;
+      for (std::size_t i = 0; i < its.size() && !reported; ++i)
+        for (std::size_t j = 0; j < its.size() && !reported; ++j)
+        {
+          VF_COUNT("int_range/iterator-comparisons");
+          if ((its[i] == its[j]) != (i == j) || (its[i] != its[j]) == (i == j))
+          {
+            vf::violation(e + "/iterator-equality", "mismatch",
+                          "the iterators after " + std::to_string(i) + " and after " + std::to_string(j) + " steps compare " + ((its[i] == its[j]) ? "equal" : "unequal"));
+            reported = true;
+          }
+        }
+    }
     VF_COUNT("int_range/enumerated-completely");
     judge_arith_sequence(key, walk::postinc, r, first, count, prefix, conv);
     judge_arith_sequence(key, walk::rangefor, r, first, count, prefix, conv);
